@@ -198,7 +198,8 @@ Section Construct.
         do (m, c) <- gt h;
         do items <- mapM sub (strip_empty LEmptyList subs);
         if mem (qual m c) (c_namedtuples C) then Ok (PSeq QTuple id m c true items)
-        else Ok (PSeq QTuple id (s "builtins") (s "tuple") false items)
+        else if pstr_eqb (qual m c) (s "builtins.tuple") then Ok (PSeq QTuple id (s "builtins") (s "tuple") false items)
+        else Ok (PSeq QTuple id m c false items)      (* C04-F3 repaired: any other tuple subclass is built as cls(items) *)
     | KBytes => do b <- read_blob h; Ok (PBytes id false (s "builtins") (s "bytes") (snd b))
     | KBytearray => do b <- read_blob h; Ok (PBytes id true (s "builtins") (s "bytearray") (snd b))
     | KSlice =>
